@@ -101,6 +101,27 @@ func init() {
 		pk.F[0] = IfaceV{V: &ModelObj{Kind: "tmpk", F: map[string]Value{"term": pkTerm(e, a[0])}}}
 		return []Value{pk, nilErr()}
 	}
+	pkeq := func(e *Exec, a []Value) []Value {
+		get := func(v Value) Value {
+			if p, ok := v.(Ptr); ok {
+				v = e.peek(p)
+			}
+			if iv, ok := v.(IfaceV); ok {
+				v = iv.V
+				if p, ok := v.(Ptr); ok {
+					v = e.peek(p)
+				}
+			}
+			return v
+		}
+		x, ok1 := get(a[0]).(*StructV)
+		y, ok2 := get(a[1]).(*StructV)
+		if !ok1 || !ok2 {
+			return []Value{False}
+		}
+		return []Value{e.eqValue(x.F[0], y.F[0])}
+	}
+	models["(*github.com/cometbft/cometbft/proto/tendermint/crypto.PublicKey).Equal"] = pkeq
 	models["(github.com/cosmos/cosmos-sdk/types.ValAddress).String"] = func(e *Exec, a []Value) []Value {
 		s := asSlice(e, a[0])
 		if s.Op == nil && (s.Nil || s.Len == 0) {
@@ -215,21 +236,24 @@ func init() {
 	}
 	models["codec.GetMsgV1Signers"] = func(e *Exec, a []Value) []Value {
 		msg := a[1].(IfaceV)
-		if e.decideBool(e.fresh("signers.fails", BoolSort)) {
-			return []Value{&SliceV{Nil: true}, IfaceV{}, errIface("", StrLit("cannot get signers"))}
-		}
 		m, _ := msg.V.(*ModelObj)
 		var key *Term
 		if m != nil {
 			key, _ = m.F["term"].(*Term)
 		}
 		if key == nil {
-			key = StrLit(describe(msg.V))
+			e.unsupported("GetMsgV1Signers on a non-stub message")
 		}
-		tag := e.fresh("signers.n", IntSort)
+		// a deterministic function of the message: does it fail, how many signers, who
+		if !e.decideBool(App("msg.signersOK", BoolSort, key)) {
+			return []Value{&SliceV{Nil: true}, IfaceV{}, errIface("", StrLit("cannot get signers"))}
+		}
+		tag := App("msg.nsigners", IntSort, key)
 		alts := []*Term{Eq(tag, IntI(0)), Eq(tag, IntI(1)), Not(Or(Eq(tag, IntI(0)), Eq(tag, IntI(1))))}
 		k := e.decide(alts)
-		e.assertPC(Eq(tag, IntI(int64(k))))
+		if k == 2 {
+			e.assertPC(Eq(tag, IntI(2)))
+		}
 		arr := &ArrayV{E: make([]Value, k)}
 		for i := range arr.E {
 			arr.E[i] = &SliceV{Op: App(fmt.Sprintf("msg.signer%d", i), BytesSort, key)}
